@@ -358,19 +358,23 @@ func driveC02(t *testing.T, out *vEmitter) {
 		secrets = append(secrets, base64.RawURLEncoding.EncodeToString([]byte("ABCDEFGHIJKLMNOPQRSTUVWXYZ012345")))
 	}
 	type kind struct {
-		redis  bool
-		tokLen int
+		redis   bool
+		tokLen  int
+		expire0 bool // cookie-expire=0: the lifetime window is not checked at all
 	}
-	kinds := []kind{{false, 20}, {false, 2600}, {true, 300}}
+	kinds := []kind{{false, 20, false}, {false, 2600, false}, {true, 300, false}, {false, 20, true}, {true, 40, true}}
 	for si, secret := range secrets {
 		for ki, k := range kinds {
-			if !vThorough() && si > 0 && ki == 1 {
+			if !vThorough() && si > 0 && (ki == 1 || ki >= 3) {
 				continue // quick: the multi-part sweep runs with the first secret only
 			}
 			mk := func(sec string) *vEnv {
 				return vNewEnv(t, vEnvCfg{redis: k.redis, mod: func(o *options.Options) {
 					o.Cookie.Secret = sec
 					o.Cookie.Refresh = 0
+					if k.expire0 {
+						o.Cookie.Expire = 0
+					}
 				}})
 			}
 			e := mk(secret)
